@@ -92,3 +92,20 @@ package escape
 //@   modifies map(*Node;EscapeStatus), map(*Node;*dataflow.EscapeRationale)
 //@   loop pointee invariant grew: statusGrew(g)
 //@   loop pointee invariant atl: g.status[n] >= s
+
+// ---------------------------------------------------------------------------
+// C14: the call-site context in which a callee's locality is computed maps EVERY
+// pointer-like argument of the call onto the callee parameter at the matching
+// position (for interface calls the callee's parameters start with the receiver,
+// the call's arguments do not). A parameter that is not mapped has no pointees in
+// the context, and "no pointees" reads as local.
+
+//@ property C14
+//@ immutable escapeCallsiteInfoImpl.callsite escapeCallsiteInfoImpl.nodes escapeCallsiteInfoImpl.prog escapeCallsiteInfoImpl.g
+
+//@ func escapeCallsiteInfoImpl.Resolve
+//@   property C14
+//@   requires c != nil && c.callsite != nil && callee != nil && c.prog != nil && c.nodes != nil && c.g != nil
+//@   ensures invoke_receiver: c.callsite.Call.IsInvoke() ==> called(mapNode, vnode(c.nodes, c.callsite.Call.Value), vnode(old(c.prog.summaries[callee].nodes), callee.Params[0]))
+//@   ensures invoke_args: forall i int :: c.callsite.Call.IsInvoke() && 0 <= i && i < len(c.callsite.Call.Args) && lang.IsNillableType(c.callsite.Call.Args[i].Type()) ==> called(mapNode, vnode(c.nodes, c.callsite.Call.Args[i]), vnode(old(c.prog.summaries[callee].nodes), callee.Params[i + 1]))
+//@   ensures static_args: forall i int :: !c.callsite.Call.IsInvoke() && 0 <= i && i < len(c.callsite.Call.Args) && lang.IsNillableType(c.callsite.Call.Args[i].Type()) ==> called(mapNode, vnode(c.nodes, c.callsite.Call.Args[i]), vnode(old(c.prog.summaries[callee].nodes), callee.Params[i]))
